@@ -111,6 +111,23 @@ def _store_text(bld, st, keep=('self', 'len', 'isinf', 'sum', 'numpy', 'np', 'Tr
     change the key under which a finding is recorded)"""
     import copy
     node = copy.deepcopy(st)
+    # derived temporaries (assigned exactly once in the function) are spelled out first
+    fn = bld if isinstance(bld, ast.AST) else None
+    if fn is not None:
+        defs = {}
+        for s0 in stmts_of(fn):
+            for nm in assigned_names(s0):
+                defs.setdefault(nm, []).append(s0)
+        single = {nm: d[0].value for nm, d in defs.items() if len(d) == 1 and isinstance(d[0], ast.Assign) and len(d[0].targets) == 1
+                  and isinstance(d[0].targets[0], ast.Name) and d[0] is not st}
+
+        class Inl(ast.NodeTransformer):
+            def visit_Name(self, n):
+                if isinstance(n.ctx, ast.Load) and n.id in single:
+                    return copy.deepcopy(single[n.id])
+                return n
+        for _ in range(3):
+            node = Inl().visit(node)
     names = {}
     for n in ast.walk(node):
         if isinstance(n, ast.Name) and n.id not in keep:
@@ -150,17 +167,35 @@ def who_writes_the_counter(ctx):
                             break
                         if isinstance(s0, ast.Assign) and len(s0.targets) == 1 and isinstance(s0.targets[0], ast.Name) and not guards_of(s0, stop=fi.node):
                             bld.exec_stmt(s0)
-                    gtxt = ' and '.join(('' if tr else 'not ') + T.show(T.simp(bld.t(g)))[:60] for g, tr, _ in reversed(guards_of(st, stop=fi.node)))
+                    def _g(g, tr):
+                        c = T.simp(bld.t(g))
+                        while isinstance(c, tuple) and c and c[0] == 'not':
+                            c, tr = c[1], not tr
+                        return ('' if tr else 'not ') + T.show(c)[:60]
+                    gtxt = ' and '.join(_g(g, tr) for g, tr, _ in reversed(guards_of(st, stop=fi.node)))
                     ctx.bad(construct, 'the evaluation counter is written outside the wrapper that counts calls (%s)%s' % (tgt[0], ' when ' + gtxt if gtxt else ' unconditionally'),
-                            fi, st, statement=('if %s: ' % gtxt if gtxt else '') + _store_text(bld, st))
+                            fi, st, statement=('if %s: ' % gtxt if gtxt else '') + _store_text(fi.node, st))
                     continue
                 if fi.name == '_decorate_objective':
-                    # self._fcalls, cost = wrap_function(..., start=<old count>)
-                    v = st.value if isinstance(st, ast.Assign) else None
-                    start = kwarg(v, 'start', 4) if isinstance(v, ast.Call) else None
+                    # the cell bound here is the first result of wrap_function(..., start=<previous count>): followed through
+                    # temporaries and tuple unpacking (self._fcalls, cost = ... / counter, cost = ...; self._fcalls = counter)
                     sn = selfname_of(fi)
-                    carries = start is not None and ''.join(unparse(start).split()) in (
-                        '%s._fcalls[0]' % sn, '%s.evaluations' % sn)
+                    bld = T.Builder()
+                    for s0 in stmts_of(fi.node):
+                        if s0.lineno >= st.lineno:
+                            break
+                        if isinstance(s0, ast.Assign) and not guards_of(s0, stop=fi.node) and all(
+                                isinstance(x, ast.Name) or (isinstance(x, (ast.Tuple, ast.List)) and all(isinstance(e, ast.Name) for e in x.elts)) for x in s0.targets):
+                            bld.exec_stmt(s0)
+                    if isinstance(st, ast.Assign):
+                        for tg0 in st.targets:
+                            bld.assign(tg0, bld.t(st.value))
+                    v = T.simp(bld.env.get('%s._fcalls' % sn, ('const', None)))
+                    call = v[1] if v[0] == 'sub' and v[2] == T.num(0) else None
+                    start = dict(call[3]).get('start') if call and call[0] == 'call' and T.show(call[1]).endswith('wrap_function') else None
+                    if start is None and call and call[0] == 'call' and len(call[2]) > 4:
+                        start = call[2][4]
+                    carries = start in (('sub', ('attr', ('name', sn), '_fcalls'), T.num(0)), ('attr', ('name', sn), 'evaluations'))
                     ctx.check(carries, construct, 'rebinding starts from the previous count',
                               're-decorating the objective restarts the evaluation counter (no start=<previous count>)', fi, st)
                 elif fi.name == '__update_allSolvers':
